@@ -61,7 +61,7 @@ fn sort_arrays(v: &Value) -> Value {
 
 /// status with everything kept, timestamps included (a restart must not
 /// change anything at all); only list order is normalised
-fn status_json_full(w: &World) -> String {
+pub fn status_json_full(w: &World) -> String {
     let cm = w.krill.ca_manager();
     let mut out = Vec::new();
     let mut hs = cm.ca_handles().unwrap_or_default();
